@@ -248,8 +248,13 @@ fn insert_rehash(len: usize) {
     let r = t.find_or_find_insert_slot(h[q as usize], |&x| x == q);
     assert!(t.slots() == SLOTS, "C17: a 16-slot table with at most 4 elements stays at 16 slots");
     let p1 = parts_of(&t);
+    let found_ok = match r {
+        Ok(i) => i < SLOTS && is_hash(p1[i].0) && p1[i].1 == q && present(&p, q),
+        Err(_) => true,
+    };
+    assert!(found_ok, "C17: an element that is present is found, not re-inserted");
     match r {
-        Ok(i) => assert!(i < SLOTS && is_hash(p1[i].0) && p1[i].1 == q && present(&p, q), "C17: an element that is present is found, not re-inserted"),
+        Ok(_) => {}
         Err(s) => {
             assert!(!present(&p, q), "C17: an insertion slot is only offered for an absent element");
             assert!(s < SLOTS && !is_hash(p1[s].0), "C17: the insertion slot is not occupied");
